@@ -67,6 +67,14 @@ def generate(rng, focus, tier="quick"):
 
         def _step(a_):
             return last[a_] * grow[a_]
+    # an integer-tick feed in a tiny currency unit: prices are whole numbers of a few 1e8, handed over as numpy
+    # int32 / int64 - every single price fits the type comfortably, a window's sum does not
+    int_feed = None
+    if grow is None and rng.random() < 0.08:
+        int_feed = rng.choice(["int32", "int32", "int64"])
+        p_update = 0.0
+        base_ = 3.0e8 if int_feed == "int32" else 3.0e18
+        last = dict((a, float(int(base_ * rng.uniform(0.7, 1.4)))) for a in assets)
     for _ in range(n_ops):
         if rng.random() < p_update:
             t += rng.choice([DAY, DAY, DAY, 3 * DAY])
@@ -78,6 +86,11 @@ def generate(rng, focus, tier="quick"):
             ops.append({"k": "update", "t": (t // DAY) * DAY + CLOSE_S, "quotes": quotes})
         else:
             a = rng.choice(assets)
+            if int_feed:
+                pr = int(last[a] * rng.uniform(0.97, 1.03))
+                last[a] = float(pr)
+                ops.append({"k": "append", "sig": rng.choice(KINDS), "asset": a, "price": pr, "np_int": int_feed})
+                continue
             last[a] = _step(a) if grow else _p(rng, last[a])
             pr = last[a]
             if rng.random() < 0.1 and pr >= 1:
@@ -227,6 +240,10 @@ def _run(plan, ctx):
         touched = set()
         if op["k"] == "append":
             k, a, p = op["sig"], op["asset"], op["price"]
+            if op.get("np_int"):
+                import numpy as np
+                p = getattr(np, op["np_int"])(p)          # an integer-tick feed handing over fixed-width numpy integers
+                ctx.probe("price_as_numpy_" + op["np_int"])
             try:
                 sigs[k].append(a, p)
             except Exception as e:
